@@ -129,7 +129,8 @@ PROPS["C15"] = {
                "planner": "first pattern node with 0..3 labels (symbolic ids; thorough: also 4, 5, 6, 8), with/without an input plan, source bound as node / relationship / unbound, "
                           "first relationship bound or not, pushed-down predicate map absent / empty / non-empty",
                "index maintenance": "one property change per transaction: SET on an existing node, SET on a node created by the transaction, REMOVE; "
-                                    "primary label present/absent, index present/absent, old value present/absent; all ids symbolic"},
+                                    "primary label present/absent, index present/absent, old value present/absent; all ids symbolic; "
+                                    "O6: one node delete / one label addition / one SET on a node whose indexed label is its second label"},
     "stubs": ["index maintenance: BTree::{load, insert, delete, root} are recorders (each mutation yields a fresh symbolic root), encode_ordered_value = "
               "4 bytes of the value id, IndexCatalog::{get, flush}, snapshot.node_label / node_property, LabelInterner::get_name, format! = symbolic ids"],
     "assumptions": ["index lookup = prefix match on enc(value) (prefix-freeness is C27)"],
@@ -144,7 +145,9 @@ PROPS["C15"] = {
                   "start-plan arms of compile_pattern_chain: on every path the start plan (NodeScan / IndexSeek / joined input) sits under a label "
                   "filter built from the complete label list of the pattern node, first label included, and apply_label_filters_for_alias (real body, 0..3 labels) "
                   "returns Filter(plan, AND of `alias IS NULL OR alias:label` for every label handed in), so a stale index entry of a node that lost "
-                  "the label cannot change the rows. Partial; "
+                  "the label cannot change the rows. O6 demands that a node delete, a label addition and a "
+                  "property write under a non-first label reach the index B-tree: commit performs no index operation for them (three known "
+                  "findings, each replayed natively with `witness index-diff`). Partial; "
                   "the Int-vs-Float disagreement (1 = 1.0 but different keys) is a recorded known finding.",
     "level_note": "Trusted: Kani/CBMC/CaDiCaL, rustc MIR dump, E2 translator and recorder models, z3.",
     "design_ref": "DESIGN.md section 3, C15",
